@@ -144,12 +144,14 @@ class Check:
 # Documented arguments are passed by position as often as by keyword: `order` is the documented order of the
 # parameters (as the docstrings list them), `given` the values.  Every other call passes the longest leading run
 # of given parameters positionally and the rest by keyword; the calls in between pass everything by keyword.
-_ROT = [0]
+_ROT = {}
 
 
 def api_call(f, order, given, first=(), positional=None):
-    _ROT[0] += 1
-    pos = (_ROT[0] % 2 == 0) if positional is None else positional
+    # one counter per callable and per set of given parameters, so that every call site alternates on its own
+    key = (getattr(f, "__qualname__", repr(f)), tuple(sorted(given)))
+    _ROT[key] = _ROT.get(key, 0) + 1
+    pos = (_ROT[key] % 2 == 0) if positional is None else positional
     args, kw = list(first), dict(given)
     if pos:
         for name in order:
